@@ -51,7 +51,14 @@ class Src(object):
             self.log.append(('get', self.k, i, 'nf'))
             raise error.PySmiReaderFileNotFoundError('nf')
         self.log.append(('get', self.k, i, 'err'))
-        raise error.PySmiReaderError('rd')
+        # the flavours of "reader error" the shipped readers raise (any PySmiError that is not not-found): which one a
+        # (source, module) pair raises is fixed by their indices, so that every flavour occurs in every shard
+        flavour = (self.k + i) % 3
+        if flavour == 0:
+            raise error.PySmiReaderError('rd')
+        if flavour == 1:
+            raise error.PySmiReaderFileNotModifiedError('file exists but cannot be read (FileReader\'s fall-through)')
+        raise error.PySmiError('file access error')
 
 
 class Parser(object):
@@ -134,6 +141,8 @@ class Borrower(object):
             self.log.append(('borrow', self.k, i, 'ok', kw.get('genTexts')))
             return MibInfo(name=name, path='bor%d/%s' % (self.k, name), file=name + '.py', mtime=5), ('BOR', self.k, i)
         self.log.append(('borrow', self.k, i, 'fail', kw.get('genTexts')))
+        if (self.k + i) % 2:
+            raise error.PySmiReaderFileNotFoundError('nb')     # what a borrower's reader says when it has no copy
         raise error.PySmiError('nb')
 
 
@@ -312,6 +321,15 @@ def oracle_C07(c, res, log, exc):
         if len(p) > 1:
             return False
         st = status_of(res, i)
+        # statuses match what happened: a module that was looked up, that no source delivered and that nothing else
+        # produced (no borrower, no searcher, not found inside another file) is missing or failed - by ground truth
+        if any(e[0] == 'get' and e[2] == i for e in log) and not c.bo and not c.sr \
+                and not any(e[0] == 'sym' and e[2] == i for e in log):
+            kind = fetch_outcome(c, i)[0]
+            if kind == 'missing' and st != 'missing':
+                return False
+            if kind == 'error' and st != 'failed':
+                return False
         if c.opts['writeMibs']:
             wrote = len(p) == 1 and p[0][4] == 'ok'
             if (st in ('compiled', 'borrowed')) != wrote:
@@ -414,6 +432,16 @@ def prefail_set(c, res, log):
     for i in sorted(closure):
         if status_of(res, i) is None and i not in out:
             out.append(i)
+    # ... and so does a module that was looked up, that no source delivered and that was never analysed (whatever status
+    # compile() gave it), unless a borrowed copy was written for it or a searcher found an up-to-date one
+    for i in range(c.M):
+        if i in out or not any(e[0] == 'get' and e[2] == i for e in log):
+            continue
+        if fetch_outcome(c, i)[0] == 'ok' or any(e[0] == 'sym' and e[2] == i for e in log):
+            continue
+        if puts_of(log, i) or any(c.sr[k][i] == 1 for k in range(len(c.sr))):
+            continue
+        out.append(i)
     return out
 
 
